@@ -60,6 +60,8 @@ cfg("t_aswritten", "thorough: pool as written, 2 clients x 1 message, 2 workers,
     "CS2", "WS2", 1, 0, "FALSE", "ReplyBc", "ExtNone", dev=II, inv=HARD)
 cfg("t_aswritten_n1", "thorough: pool as written, ONE worker, 2 clients x <= 2 messages: every property incl. invocation level",
     "CS2", "WS1", 2, 0, "FALSE", "ReplyUni", "ExtNone", dev=II)
+cfg("t_c3", "thorough: 3 clients that connect / close / vanish (no messages), one worker, greeting unicast + departure broadcast: membership changes with three members",
+    "CS3", "WS1", 0, 0, "FALSE", "ReplyChat", "ExtNone")
 cfg("t_live", "thorough: liveness ShutdownEndsRun with 2 clients and one worker (no symmetry under liveness)",
     "CS2", "WS1", 1, 0, "FALSE", "ReplyNone", "ExtNone", live=True, inv="TypeOK")
 # reachability witnesses: each MUST violate
